@@ -123,6 +123,7 @@ func cacheMain(s *simrt.Sim, info *harness.RunInfo) {
 	var sim *harness.SimStorage
 	if useSim {
 		sim = harness.NewSimStorage(s, "cache-store")
+		sim.KeyOracle = "C14.storage-key-aliases-request-buffer"
 		cfg.Storage = sim
 		if maxBytes > 0 {
 			sim.OnOp = func(op, key string) {
